@@ -34,6 +34,7 @@ import (
 	"fmt"
 	"math"
 	"math/bits"
+	"runtime/debug"
 	"sort"
 	"strings"
 	"testing"
@@ -201,8 +202,7 @@ func datasets(thorough bool) []Dataset {
 	}
 	return []Dataset{
 		{Kind: "masks", N: 8, Place: "straddle", Layout: "mixed"},
-		{Kind: "masks", N: 8, Place: "single", Layout: "tsm"},
-		{Kind: "masks", N: 8, Place: "straddle", Layout: "cache"},
+		{Kind: "masks", N: 7, Place: "single", Layout: "tsm"},
 		{Kind: "big", Place: "single", Layout: "mixed"},
 	}
 }
@@ -253,10 +253,14 @@ func requests(ds Dataset, thorough bool, M int) []Req {
 			}
 		}
 		wins = []wcfg{{1, 0}, {2, 0}, {2, 1}, {3, 0}, {3, 1}, {1, 1}, {0, 0}}
-		if !thorough && M == shippedM {
-			// quick: the shipped buffer size only repeats a slice of the family (the small size reaches a superset of paths)
-			wins = []wcfg{{2, 1}, {3, 0}}
-			fields = []string{"f", "i"}
+		if !thorough {
+			wins = []wcfg{{1, 0}, {2, 1}, {3, 0}, {0, 0}}
+			fields = []string{"f", "i", "s"}
+			if M == shippedM {
+				// quick: the shipped buffer size only repeats a slice of the family (the small size reaches a superset of paths)
+				wins = []wcfg{{2, 1}, {3, 0}}
+				fields = []string{"f", "i"}
+			}
 		}
 	}
 	var out []Req
@@ -949,11 +953,7 @@ func bucketN(n int) string {
 }
 
 func (h *harness) runCase(c *vlib.Ctx, M int, r Req) {
-	st := time.Now()
 	res := h.exec(c, M, r)
-	if d := time.Since(st); d > 300*time.Millisecond {
-		c.Logf("SLOW %v: %s M=%d ds=%+v tables=%d", d, r, M, h.ds, res.ntables)
-	}
 	n := int64(len(h.sers))
 	c.Eval(n)
 	switch {
@@ -1034,6 +1034,7 @@ func TestCheck(t *testing.T) {
 				return
 			}
 			defer func() { reads.MaxPointsPerBlock = shippedM }()
+			defer debug.SetGCPercent(debug.SetGCPercent(400)) // small live heap, very many short-lived arrow buffers
 			var idx int64
 			var total int64
 			for _, ds := range datasets(c.Thorough()) {
@@ -1043,7 +1044,9 @@ func TestCheck(t *testing.T) {
 					total += int64(len(reqs))
 					for _, r := range reqs {
 						idx++
-						if !c.Mine(idx) {
+						// neighbouring requests differ in the cheapest dimensions: spread them over the shards by a fixed
+						// bijective scramble of the index (every request still belongs to exactly one shard)
+						if !c.Mine(int64((uint64(idx) * 0x9E3779B97F4A7C15) >> 33)) {
 							continue
 						}
 						if c.Expired() {
